@@ -168,6 +168,18 @@ template<class T,class QS> static void chk_rel(const In3<T>& in,vf::Ctx& c){ QS:
 	if(glm::any(lt)!=an) c.fail(vcls(L,Q,"any:wrong"),glm::any(lt),an); if(glm::all(lt)!=al) c.fail(vcls(L,Q,"all:wrong"),glm::all(lt),al);
 	auto nt=glm::not_(lt); for(int i=0;i<L;i++) if(nt[i]!=!(in.a[i]<in.b[i])) c.fail(vcls(L,Q,"not_:wrong"),(bool)nt[i],!(in.a[i]<in.b[i]));
 	bool veq=(x==y), vne=(x!=y), weq=true; for(int i=0;i<L;i++) weq=weq&&(in.a[i]==in.b[i]); if(veq!=weq) c.fail(vcls(L,Q,"operator==:not-conjunction-of-components"),veq,weq); if(vne!=!weq) c.fail(vcls(L,Q,"operator!=:not-negation-of-=="),vne,!weq); }); }
+// epsilon comparisons (ext/vector_relational): vector overloads with a scalar and with a per-component epsilon against the scalar overload
+// equal(x,y,eps) / notEqual(x,y,eps) of ext/scalar_relational, NaN and infinities included (both scalar overloads are false on NaN)
+template<class T,class QS> static void chk_rel_eps(const In3<T>& in,vf::Ctx& c){ QS::each([&](auto lq){ constexpr int L=decltype(lq)::L; constexpr glm::qualifier Q=decltype(lq)::Q;
+	glm::vec<L,T,Q> x=mkv<T,L,Q>(in.a),y=mkv<T,L,Q>(in.b),e=mkv<T,L,Q>(in.c); const T e0=in.c[0];
+	auto eqs=glm::equal(x,y,e0), nes=glm::notEqual(x,y,e0), eqv=glm::equal(x,y,e), nev=glm::notEqual(x,y,e);
+	for(int i=0;i<L;i++){ bool w1=glm::equal(in.a[i],in.b[i],e0), w2=glm::notEqual(in.a[i],in.b[i],e0), w3=glm::equal(in.a[i],in.b[i],in.c[i]), w4=glm::notEqual(in.a[i],in.b[i],in.c[i]);
+		if(eqs[i]!=w1) c.fail(vcls(L,Q,"equal(x,y,scalar-epsilon):component-differs-from-scalar-overload"),(bool)eqs[i],w1); if(nes[i]!=w2) c.fail(vcls(L,Q,"notEqual(x,y,scalar-epsilon):component-differs-from-scalar-overload"),(bool)nes[i],w2);
+		if(eqv[i]!=w3) c.fail(vcls(L,Q,"equal(x,y,vector-epsilon):component-differs-from-scalar-overload"),(bool)eqv[i],w3); if(nev[i]!=w4) c.fail(vcls(L,Q,"notEqual(x,y,vector-epsilon):component-differs-from-scalar-overload"),(bool)nev[i],w4);
+		c.cls(isnan_b(in.a[i])||isnan_b(in.b[i])? "NaN-operand": isnan_b((T)(in.a[i]-in.b[i]))? "inf-inf": "ordered"); } }); }
+#define P_EPS [](auto& x){ typedef typename std::remove_reference<decltype(x.a[0])>::type T; for(int i=0;i<4;i++){ if(isnan_b(x.c[i])||x.c[i]<0) x.c[i]=(T)std::fabs((double)(isnan_b(x.c[i])? (T)0.5: x.c[i])); if((i&1) && isfinite_b(x.a[i]) && isfinite_b(x.c[i])) x.b[i]=(T)(x.a[i]+x.c[i]*(T)((i&2)? 1: 0.5)); } }
+VF_OP(relational_epsilon_f32, In3<float>, F12_f){ chk_rel_eps<float,QF>(in,c); } static Reg<float> r_rele1(&relational_epsilon_f32,P_EPS);
+VF_OP(relational_epsilon_f64, In3<double>, F12_d){ chk_rel_eps<double,QD>(in,c); } static Reg<double> r_rele2(&relational_epsilon_f64,P_EPS);
 VF_OP(relational_f32, In3<float>, F12_f){ chk_rel<float,QF>(in,c); } static Reg<float> r_rel1(&relational_f32);
 VF_OP(relational_f64, In3<double>, F12_d){ chk_rel<double,QD>(in,c); } static Reg<double> r_rel2(&relational_f64);
 VF_OP(relational_i32, In3<i32>, F12_i){ chk_rel<i32,QSet<i32>::type>(in,c); } static Reg<i32> r_rel3(&relational_i32);
